@@ -9,6 +9,18 @@ AX_R = ('axioms: the three real-number axioms of the Coq standard library (Class
         'sig_forall_dec, FunctionalExtensionality.functional_extensionality_dep) where Reals are used; ')
 
 CHECKS = {
+    'C17': dict(
+        technique='Coq proof (list induction) about a hand-written executable model of header-driven CSV event parsing and of the binary moment-tensor record codec; vm_compute correspondence against parse_csv on generated files and against the bytes written by _convert_mt_space_to_struct / read by read_binary_output',
+        text='Theorems in coq/Props/C17.v: a CSV row is read back field for field for every column order (extra columns allowed); an event '
+             'with any number of data types, each with its own header order, is parsed back to its UID and, type by type and row by row, '
+             'to the data of the file whatever state the previous event left; a binary record decodes to what was encoded for any number '
+             'of samples, with or without converted parameters, also as one of several concatenated records, and occupies exactly 41 + '
+             'n*64 (or n*168) bytes. The unit tests parse one embedded example each.',
+        note='closed under the global context (no axioms). Models are hand-written, tied by correspondence only; tokenising text and cutting '
+             'bytes into items is trusted harness glue. The NonLinLoc hyp parser, the pickled inversion file and the value-level binary '
+             'round trip are judged on the implementation against the generator\'s own data (direct oracle), not modelled. Well-formed files '
+             'only.',
+        design='6 C17'),
     'C16': dict(
         technique='Coq proof (induction over operation sequences, lia) about a hand-written executable model of the JobPool: an interleaving state machine and the collection functions over every arrival order; vm_compute correspondence replaying the arrival orders observed on real worker processes',
         text='Theorems in coq/Props/C16.v: under EVERY interleaving of submissions, worker starts and finishes and result pops each task is '
